@@ -5,26 +5,27 @@ From Coercion.Select Require Import Rows RowsProofs Select SelectSpec PersistPro
 
 (* ================= A. ageing out in memory = closing the plan ================= *)
 
-Definition g_age (stamp : Z) : gmap :=
+Definition g_age (last stamp : Z) : gmap :=
   {| g_plan := fun _ x => (option_map (fun s => {| s_status := Failed; s_start := s_start s; s_end := stamp |}) (fst x),
                            FRExceedRecovery);
-     g_chk := g_chk (g_rtf stamp); g_blk := g_blk (g_rtf stamp);
-     g_seq := g_seq (g_rtf stamp); g_act := g_act (g_rtf stamp) |}.
+     g_chk := g_chk (g_rtf last); g_blk := g_blk (g_rtf last);
+     g_seq := g_seq (g_rtf last); g_act := g_act (g_rtf last) |}.
 
-Lemma age_out_tm stamp p : age_out stamp p = tm_plan (g_age stamp) p.
+Lemma age_out_tm stamp p : age_out stamp p = tm_plan (g_age (last_update p) stamp) p.
 Proof.
-  unfold age_out, running_to_failed, plan_set, tm_plan, plan_with. simpl.
+  unfold age_out. generalize (last_update p). intros L.
+  unfold running_to_failed, plan_set, tm_plan, plan_with. simpl.
   destruct (p_state p) as [s|]; simpl; reflexivity.
 Qed.
 
-Lemma fail_running_close stamp s : fail_running stamp s = close_state stamp s.
+Lemma fail_running_close last s : fail_running last s = close_state last s.
 Proof. unfold fail_running, close_state. destruct s as [[] a b]; reflexivity. Qed.
 
-Lemma ofail_running_close stamp st :
-  option_map (fail_running stamp) st = option_map (close_state stamp) st.
+Lemma ofail_running_close last st :
+  option_map (fail_running last) st = option_map (close_state last) st.
 Proof. destruct st; simpl; [now rewrite fail_running_close|reflexivity]. Qed.
 
-Lemma tm_action_close stamp a : tm_action (g_age stamp) a = close_action stamp a.
+Lemma tm_action_close last stamp a : tm_action (g_age last stamp) a = close_action last a.
 Proof.
   unfold tm_action, close_action, action_with. simpl. now rewrite ofail_running_close.
 Qed.
@@ -33,45 +34,54 @@ Lemma omap_list_close {A} (f g : A -> A) l :
   (forall x, f x = g x) -> omap_list f l = close_list g l.
 Proof. intros H. unfold close_list. apply omap_list_ext_in. intros x _. apply H. Qed.
 
-Lemma tm_checks_close stamp c : tm_checks (g_age stamp) c = close_checks stamp c.
+Lemma tm_checks_close last stamp c : tm_checks (g_age last stamp) c = close_checks last c.
 Proof.
   unfold tm_checks, close_checks, checks_with. simpl.
-  rewrite (omap_list_close _ (close_action stamp)) by apply tm_action_close.
+  rewrite (omap_list_close _ (close_action last)) by apply tm_action_close.
   now rewrite ofail_running_close.
 Qed.
 
-Lemma tm_ochecks_close stamp o :
-  option_map (tm_checks (g_age stamp)) o = option_map (close_checks stamp) o.
+Lemma tm_ochecks_close last stamp o :
+  option_map (tm_checks (g_age last stamp)) o = option_map (close_checks last) o.
 Proof. destruct o; simpl; [now rewrite tm_checks_close|reflexivity]. Qed.
 
-Lemma tm_seq_close stamp q : tm_seq (g_age stamp) q = close_seq stamp q.
+Lemma tm_seq_close last stamp q : tm_seq (g_age last stamp) q = close_seq last q.
 Proof.
   unfold tm_seq, close_seq, seq_with. simpl.
-  rewrite (omap_list_close _ (close_action stamp)) by apply tm_action_close.
+  rewrite (omap_list_close _ (close_action last)) by apply tm_action_close.
   now rewrite ofail_running_close.
 Qed.
 
-Lemma tm_block_close stamp b : tm_block (g_age stamp) b = close_block stamp b.
+Lemma tm_block_close last stamp b : tm_block (g_age last stamp) b = close_block last b.
 Proof.
   unfold tm_block, close_block, block_with. simpl.
   rewrite !tm_ochecks_close.
-  rewrite (omap_list_close _ (close_seq stamp)) by apply tm_seq_close.
+  rewrite (omap_list_close _ (close_seq last)) by apply tm_seq_close.
   now rewrite ofail_running_close.
 Qed.
 
-Lemma tm_plan_close stamp p : tm_plan (g_age stamp) p = close_plan stamp p.
+Lemma tm_plan_close last stamp p : tm_plan (g_age last stamp) p = close_plan last stamp p.
 Proof.
   unfold tm_plan, close_plan, plan_with. simpl.
   rewrite !tm_ochecks_close.
-  rewrite (omap_list_close _ (close_block stamp)) by apply tm_block_close.
+  rewrite (omap_list_close _ (close_block last)) by apply tm_block_close.
   reflexivity.
 Qed.
 
-Lemma age_out_close stamp p : age_out stamp p = close_plan stamp p.
-Proof. now rewrite age_out_tm, tm_plan_close. Qed.
+(* the post-state of a closed plan: its interrupted objects end at its last recorded activity *)
+Definition close_of (stamp : Z) (p : plan) : plan := close_plan (last_update p) stamp p.
 
-Lemma writes_aged_rows pm : writes_aged pm = rows_plan pm.
-Proof. reflexivity. Qed.
+Lemma age_out_close stamp p : age_out stamp p = close_of stamp p.
+Proof. unfold close_of. now rewrite age_out_tm, tm_plan_close. Qed.
+
+(* the close's writes are the rows of the closed plan, the plan row moved to the end *)
+Lemma writes_aged_nodup pm : NoDup (map row_key (rows_plan pm)) -> NoDup (map row_key (writes_aged pm)).
+Proof.
+  intros H. unfold writes_aged. rewrite map_app. cbn [map]. apply rotate_nodup. exact H.
+Qed.
+
+Lemma writes_aged_in pm w : In w (writes_aged pm) <-> In w (rows_plan pm).
+Proof. unfold writes_aged. rewrite rotate_in. reflexivity. Qed.
 
 (* ================= B. the store after every aged plan was persisted ================= *)
 
@@ -83,13 +93,18 @@ Proof. reflexivity. Qed.
 
 Lemma aged_out_fold stamp : forall l s,
   keys_unique s -> NoDup (map pid l) -> (forall p, In p l -> In p s) ->
-  aged_out stamp l s = map (fun q => if pid_in l q then close_plan stamp q else q) s.
+  aged_out stamp l s = map (fun q => if pid_in l q then close_of stamp q else q) s.
 Proof.
   induction l as [|p l IH]; intros s Hk Hnd Hin.
   - simpl. rewrite <- (map_id s) at 1. apply map_ext. reflexivity.
-  - rewrite aged_out_cons, writes_aged_rows, age_out_tm.
+  - rewrite aged_out_cons, age_out_tm.
     destruct (in_split p s (Hin p (or_introl eq_refl))) as [s1 [s2 ->]].
-    rewrite persist_split by exact Hk.
+    rewrite (persist_split (g_age (last_update p) stamp)).
+    2: exact Hk.
+    2:{ apply writes_aged_nodup. rewrite keys_tm_plan. unfold keys_unique in Hk.
+        change (p :: s2) with ([p] ++ s2) in Hk. rewrite !rows_store_app, !map_app, rows_store_single in Hk.
+        apply NoDup_app_r in Hk. now apply NoDup_app_l in Hk. }
+    2: apply writes_aged_in.
     cbn [map] in Hnd. apply NoDup_cons_iff in Hnd as [Hp Hnd].
     assert (Hpids := keys_unique_pids _ Hk).
     rewrite map_app in Hpids. cbn [map] in Hpids.
@@ -107,7 +122,7 @@ Proof.
         destruct (existsb (fun p0 => N.eqb (pid p0) (pid p)) l) eqn:E.
         -- apply existsb_exists in E as [p' [Hp' E]]. apply N.eqb_eq in E.
            exfalso. apply Hp. rewrite <- E. now apply in_map.
-        -- apply tm_plan_close.
+        -- unfold close_of. apply tm_plan_close.
       * apply map_ext_in. intros q Hq. unfold pid_in. cbn [existsb].
         destruct (N.eqb (pid p) (pid q)) eqn:E; [|reflexivity].
         apply N.eqb_eq in E. exfalso. now apply (H2 q Hq).
@@ -178,7 +193,7 @@ Qed.
 Lemma select_on now stamp maxAge s :
   keys_unique s ->
   select now stamp maxAge true s =
-  (map (fun q => if aged_now now maxAge q then close_plan stamp q else q) s,
+  (map (fun q => if aged_now now maxAge q then close_of stamp q else q) s,
    map pid (filter (live_now now maxAge) s)).
 Proof.
   intros Hk. assert (Hnd := keys_unique_pids s Hk).
@@ -456,10 +471,10 @@ Proof. split; [apply is_staleb_iff|split; [apply stale_iff|apply running_iff]]. 
 Lemma close_state_not_running stamp s : s_status (close_state stamp s) <> Running.
 Proof. unfold close_state. destruct s as [[] a b]; simpl; discriminate. Qed.
 
-Lemma close_plan_nothing_running stamp p : nothing_running (close_plan stamp p).
+Lemma close_plan_nothing_running last stamp p : nothing_running (close_plan last stamp p).
 Proof.
   intros st Hst. apply in_plan_states in Hst.
-  rewrite <- tm_plan_close, rows_tm_plan, map_map in Hst.
+  rewrite <- (tm_plan_close last stamp), rows_tm_plan, map_map in Hst.
   apply in_map_iff in Hst as [r [<- _]].
   destruct r as [id [s|] rs|id [s|]|id [s|]|id [s|]|id att [s|]]; cbn; try discriminate;
     try rewrite fail_running_close; intros [= H]; revert H; apply close_state_not_running.
@@ -491,7 +506,7 @@ Lemma resume_selection :
        NoDup resumed /\
        Forall2 (fun p p' =>
                   (is_running p /\ is_stale now maxAge p ->
-                     p' = close_plan stamp p /\ nothing_running p' /\
+                     p' = close_plan (last_update p) stamp p /\ nothing_running p' /\
                      status_of (p_state p') = Some Failed /\ p_reason p' = FRExceedRecovery /\
                      ~ In (pid p) resumed) /\
                   (~ (is_running p /\ is_stale now maxAge p) -> p' = p) /\
@@ -517,7 +532,7 @@ Proof.
       rewrite (proj2 (running_iff p) Hr), (proj2 (stale_iff now maxAge p) Hs). cbn [andb].
       split; [reflexivity|]. split; [apply close_plan_nothing_running|].
       split; [|split; [reflexivity|]].
-      * unfold is_running, status_of in Hr. unfold close_plan, status_of. cbn [p_state].
+      * unfold is_running, status_of in Hr. unfold close_of, close_plan, status_of. cbn [p_state].
         destruct (p_state p); [reflexivity|discriminate].
       * intros Hin. apply Hres in Hin as [q [Hq [Hid [_ Hns]]]].
         assert (q = p).
@@ -565,7 +580,7 @@ Lemma stale_running_closed :
   forall (s : list plan) (now stamp maxAge : Z),
     keys_unique s ->
     Forall2 (fun p p' => is_running p -> is_stale now maxAge p ->
-                         p' = close_plan stamp p /\ nothing_running p' /\
+                         p' = close_plan (last_update p) stamp p /\ nothing_running p' /\
                          status_of (p_state p') = Some Failed /\ p_reason p' = FRExceedRecovery /\
                          ~ In (pid p) (snd (select now stamp maxAge true s)))
             s (fst (select now stamp maxAge true s)).
